@@ -12,42 +12,50 @@ import (
 	"strings"
 )
 
-// PanicSites (C12): every explicit `panic(` call and every allocation / loop sized by a count that was just decoded from the
-// input, in the directories a transaction or a pre-execution request executes: smartcontract/, vm/neovm/, core/states/ and
-// core/store/ledgerstore/tx_handler.go (non-test files, files behind the `verif` build tag excluded).
+// PanicSites (C12): the KINDS of explicit `panic(` calls and of operations sized / bounded / indexed by a count that was
+// decoded from the input, in the directories a transaction or a pre-execution request executes: smartcontract/, vm/neovm/,
+// core/states/ and core/store/ledgerstore/tx_handler.go (non-test files, files behind the `verif` build tag excluded).
 //
-// The generated lists are Lean constants; Props/C12.lean pins the REVIEWED lists with `rfl`, so a new panic site or a new
-// count-sized loop / make in these directories breaks the build until it is triaged (disposition in props/C12.json).
+// A kind is a canonical string that does not depend on the function a statement lives in, on the names of locals, or on
+// how many copies of the statement exist:
 //
-// Site identity (stable under unrelated edits): `<file>:<function>#<k>: <text>` with k = ordinal of the site inside the function.
+//		<package dir>: <operation> [$c=<readers>] [body:<reads|noread>] [if <guard> ; <guard> …]
+//
+//	  - operation: `panic(<arg>)`, `loop <op><bound>` (a `for` whose condition compares against the bound; a `range` over an
+//	    integer), `make(<type>,<sizes>)`, `index [<i>]`, `slice [<lo>:<hi>]`, `div /<d>` — for everything but panic only when
+//	    an operand derives from a decoded count;
+//	  - operands are printed after inlineLocals (simply-defined locals replaced by their definition), after replacing the
+//	    parameters of a same-package helper by the caller's arguments, and after replacing the result of a same-package
+//	    helper by the expression it returns; then every decoded count is `$c.<Reader>` (Reader = the Next…/Read…/Decode…
+//	    Uint/Int/Byte function it was read with), every other local / parameter / receiver is `$v`; package-level names,
+//	    imported names and literals stay;
+//	  - guards: the conditions that dominate the site (guardsOf: if / else / switch / early exits are the same thing), of the
+//	    function itself and inherited from the callers on the helper chain, restricted to those that mention an operand of
+//	    the operation (two counts decoded in one function are different operands); positive ones are split at `&&`,
+//	    negative ones at `||`, so merging or splitting checks is invisible; a comparison has one spelling (`!(a<b)` is
+//	    `a>=b`, count on the left, literal on the right); `if err := check(n); err != nil { return }` with a same-package
+//	    check contributes check's own error conditions; a guard on a local that is assigned again before the site is
+//	    dropped, except that `x -= 1` / `x++` outside loops turns the later uses into `(x-1)` instead;
+//	  - body:reads / body:noread (loops): whether the loop body (helpers followed) reads from a source / decodes an item and
+//	    can leave the loop — the shape the termination argument of C12_count_loop_bounded needs.
+//
+// The output is the sorted SET of kinds. Props/C12.lean proves that every generated kind is in the reviewed set: a kind
+// that disappears is fine (helper extraction, deduplication, deleted code); a new kind, a kind that loses a guard, a loop
+// that stops reading — each is a string outside the reviewed set and breaks the build until it is triaged
+// (dispositions per kind in props/C12.json). What is not understood is printed as it is (and is then outside the set).
 func init() { Register("PanicSites", genPanicSites) }
 
-var reCountDecoder = regexp.MustCompile(`^(Next|Read|Decode)(Var)?(Uint|Int|Byte)[A-Za-z0-9]*$`)
+var reCountDecoder = regexp.MustCompile(`^(Next|Read|Decode)(Var)?(Uint|Int|Byte)[0-9]*$`)
+var reItemRead = regexp.MustCompile(`^(Next|Read|Decode|Deserializ|deserializ|Unmarshal)[A-Za-z0-9]*$`)
 
-func funcName(fd *ast.FuncDecl) string {
-	if fd.Recv != nil && len(fd.Recv.List) == 1 {
-		t := fd.Recv.List[0].Type
-		if st, ok := t.(*ast.StarExpr); ok {
-			t = st.X
-		}
-		if id, ok := t.(*ast.Ident); ok {
-			return id.Name + "." + fd.Name.Name
-		}
-	}
-	return fd.Name.Name
-}
+var psBuiltins = map[string]bool{"int": true, "int8": true, "int16": true, "int32": true, "int64": true, "uint": true, "uint8": true,
+	"uint16": true, "uint32": true, "uint64": true, "uintptr": true, "len": true, "cap": true, "byte": true, "rune": true, "nil": true,
+	"true": true, "false": true, "string": true, "make": true, "new": true, "append": true, "copy": true, "error": true, "bool": true,
+	"float32": true, "float64": true, "iota": true, "panic": true, "_": true}
 
-func leanStr(s string) string {
-	s = strings.Join(strings.Fields(s), " ")
-	s = strings.NewReplacer(`\`, `/`, `"`, `'`).Replace(s)
-	if len(s) > 90 {
-		s = s[:90] + "…"
-	}
-	return `"` + s + `"`
-}
-
-func panicSiteFiles(repo string) ([]string, error) {
-	var files []string
+func panicSiteDirs(repo string) ([]string, int, error) {
+	dirs := map[string]bool{}
+	nfiles := 0
 	for _, root := range []string{"smartcontract", "vm/neovm", "core/states"} {
 		err := filepath.Walk(filepath.Join(repo, root), func(p string, info os.FileInfo, err error) error {
 			if err != nil {
@@ -56,23 +64,506 @@ func panicSiteFiles(repo string) ([]string, error) {
 			if info.IsDir() || !strings.HasSuffix(p, ".go") || strings.HasSuffix(p, "_test.go") || strings.HasPrefix(info.Name(), "verif_export") {
 				return nil
 			}
-			rel, _ := filepath.Rel(repo, p)
-			files = append(files, rel)
+			rel, _ := filepath.Rel(repo, filepath.Dir(p))
+			dirs[rel] = true
+			nfiles++
 			return nil
 		})
 		if err != nil {
-			return nil, err
+			return nil, 0, err
 		}
 	}
-	files = append(files, "core/store/ledgerstore/tx_handler.go")
-	sort.Strings(files)
-	return files, nil
+	dirs["core/store/ledgerstore"] = true
+	nfiles++
+	var out []string
+	for d := range dirs {
+		out = append(out, d)
+	}
+	sort.Strings(out)
+	return out, nfiles, nil
 }
 
-func mentions(e ast.Node, names map[string]bool) bool {
+type psCtx struct {
+	dir     string
+	fset    *token.FileSet
+	funcs   map[string]*ast.FuncDecl
+	imports map[string]bool
+	globals map[string]bool // package-level const / var / type / func names
+	panics  map[string]bool
+	counts  map[string]bool
+}
+
+// frame: one function, possibly reached through a call with arguments that derive from a decoded count
+type psFrame struct {
+	fn        *ast.FuncDecl
+	defs      *defTable
+	subst     map[string]ast.Expr // parameter -> argument in role terms
+	taint     map[string]ast.Expr // local name, or ".Field", -> role expression ($c.Reader, or what a helper returned)
+	inherited []cond              // dominating conditions of the call sites on the chain, in role terms
+	depth     int
+	chain     map[*ast.FuncDecl]bool
+	steps     map[string][]psStep // `x -= 1` / `x++` outside loops: later uses of x read (x-1), earlier guards stay valid
+}
+
+type psStep struct {
+	pos   token.Pos
+	op    token.Token
+	lit   ast.Expr
+	upto  token.Pos // end of the block the step sits in: behind it the value depends on the path taken …
+	exits bool      // … unless that block always leaves the function / loop
+}
+
+func psStepsOf(fn *ast.FuncDecl) map[string][]psStep {
+	out := map[string][]psStep{}
+	var walk func(n ast.Node)
+	var blocks []ast.Node
+	upto := func() (token.Pos, bool) {
+		if len(blocks) == 0 {
+			return fn.Body.End(), true
+		}
+		switch b := blocks[len(blocks)-1].(type) {
+		case *ast.BlockStmt:
+			return b.End(), alwaysExits(b.List)
+		case *ast.CaseClause:
+			return b.End(), alwaysExits(b.Body)
+		}
+		return blocks[len(blocks)-1].End(), false
+	}
+	var stack []ast.Node
+	walk = func(root ast.Node) {
+		ast.Inspect(root, func(n ast.Node) bool {
+			if n == nil {
+				top := stack[len(stack)-1]
+				stack = stack[:len(stack)-1]
+				if len(blocks) > 0 && blocks[len(blocks)-1] == top {
+					blocks = blocks[:len(blocks)-1]
+				}
+				return true
+			}
+			switch n.(type) {
+			case *ast.ForStmt, *ast.RangeStmt, *ast.FuncLit:
+				return false // a step inside a loop is a different thing (the assignment then makes earlier guards stale)
+			}
+			stack = append(stack, n)
+			switch n.(type) {
+			case *ast.BlockStmt, *ast.CaseClause, *ast.CommClause:
+				blocks = append(blocks, n)
+			}
+			switch x := n.(type) {
+			case *ast.AssignStmt:
+				if (x.Tok == token.ADD_ASSIGN || x.Tok == token.SUB_ASSIGN) && len(x.Lhs) == 1 && len(x.Rhs) == 1 {
+					if id, ok := x.Lhs[0].(*ast.Ident); ok {
+						if lit, ok := x.Rhs[0].(*ast.BasicLit); ok && lit.Kind == token.INT {
+							op := token.ADD
+							if x.Tok == token.SUB_ASSIGN {
+								op = token.SUB
+							}
+							u, ex := upto()
+							out[id.Name] = append(out[id.Name], psStep{x.End(), op, lit, u, ex})
+						}
+					}
+				}
+			case *ast.IncDecStmt:
+				if id, ok := x.X.(*ast.Ident); ok {
+					op := token.ADD
+					if x.Tok == token.DEC {
+						op = token.SUB
+					}
+					u, ex := upto()
+					out[id.Name] = append(out[id.Name], psStep{x.End(), op, &ast.BasicLit{Kind: token.INT, Value: "1"}, u, ex})
+				}
+			}
+			return true
+		})
+	}
+	walk(fn.Body)
+	return out
+}
+
+func (f *psFrame) stepAt(name string, end token.Pos) bool {
+	for _, st := range f.steps[name] {
+		if st.pos == end {
+			return true
+		}
+	}
+	return false
+}
+
+func psRole(name string) *ast.Ident { return ast.NewIdent(name) }
+
+func isRoleIdent(n string) bool { return strings.HasPrefix(n, "$") }
+
+// rewrite rebuilds an expression bottom-up; leaf(ident) may replace identifiers, sel(x) may replace whole selectors,
+// call(x) may replace whole calls (after their arguments were rewritten).
+func psRewrite(e ast.Expr, leaf func(*ast.Ident) ast.Expr, sel func(*ast.SelectorExpr) ast.Expr, call func(*ast.CallExpr) ast.Expr) ast.Expr {
+	rw := func(x ast.Expr) ast.Expr { return psRewrite(x, leaf, sel, call) }
+	switch x := e.(type) {
+	case nil:
+		return nil
+	case *ast.Ident:
+		return leaf(x)
+	case *ast.ParenExpr:
+		in := rw(x.X)
+		switch stripParens(in).(type) {
+		case *ast.BinaryExpr, *ast.UnaryExpr, *ast.StarExpr, *ast.TypeAssertExpr:
+			return &ast.ParenExpr{X: stripParens(in)}
+		}
+		return stripParens(in) // parentheses around an atom say nothing
+	case *ast.BinaryExpr:
+		return &ast.BinaryExpr{X: rw(x.X), Op: x.Op, Y: rw(x.Y)}
+	case *ast.UnaryExpr:
+		return &ast.UnaryExpr{Op: x.Op, X: rw(x.X)}
+	case *ast.StarExpr:
+		return &ast.StarExpr{X: rw(x.X)}
+	case *ast.CallExpr:
+		args := make([]ast.Expr, len(x.Args))
+		for i, a := range x.Args {
+			args[i] = stripParens(rw(a))
+		}
+		fun := x.Fun
+		switch fx := fun.(type) {
+		case *ast.SelectorExpr:
+			fun = &ast.SelectorExpr{X: rw(fx.X), Sel: fx.Sel}
+		case *ast.Ident: // function / conversion name: not a value
+		default:
+			fun = rw(fun)
+		}
+		n := &ast.CallExpr{Fun: fun, Args: args}
+		if call != nil {
+			return call(n)
+		}
+		return n
+	case *ast.SelectorExpr:
+		if sel != nil {
+			if r := sel(x); r != nil {
+				return r
+			}
+		}
+		return &ast.SelectorExpr{X: rw(x.X), Sel: x.Sel}
+	case *ast.IndexExpr:
+		return &ast.IndexExpr{X: rw(x.X), Index: stripParens(rw(x.Index))}
+	case *ast.SliceExpr:
+		sp := func(e ast.Expr) ast.Expr {
+			if e == nil {
+				return nil
+			}
+			return stripParens(rw(e))
+		}
+		return &ast.SliceExpr{X: rw(x.X), Low: sp(x.Low), High: sp(x.High), Max: sp(x.Max), Slice3: x.Slice3}
+	case *ast.TypeAssertExpr:
+		return &ast.TypeAssertExpr{X: rw(x.X), Type: x.Type}
+	case *ast.KeyValueExpr:
+		return &ast.KeyValueExpr{Key: x.Key, Value: rw(x.Value)}
+	case *ast.CompositeLit:
+		el := make([]ast.Expr, len(x.Elts))
+		for i, a := range x.Elts {
+			el[i] = rw(a)
+		}
+		return &ast.CompositeLit{Type: x.Type, Elts: el}
+	}
+	return e
+}
+
+// isValueIdent: an identifier that denotes a run-time local (not a package, builtin, package-level name or role)
+func (c *psCtx) isLocal(name string) bool {
+	return !psBuiltins[name] && !c.imports[name] && !c.globals[name] && !isRoleIdent(name)
+}
+
+// idents of an expression in value position: locals and roles (field names, called function names, package qualifiers skipped)
+func (c *psCtx) valueIdents(e ast.Expr) []string {
+	var out []string
+	seen := map[string]bool{}
+	psRewrite(e, func(id *ast.Ident) ast.Expr {
+		if !seen[id.Name] && (isRoleIdent(id.Name) || c.isLocal(id.Name)) {
+			seen[id.Name] = true
+			out = append(out, id.Name)
+		}
+		return id
+	}, func(s *ast.SelectorExpr) ast.Expr {
+		if id, ok := s.X.(*ast.Ident); ok && c.imports[id.Name] && !isRoleIdent(id.Name) {
+			return s // pkg.Name: no value identifiers inside
+		}
+		return nil
+	}, func(call *ast.CallExpr) ast.Expr {
+		if id, ok := call.Fun.(*ast.Ident); ok && isRoleIdent(id.Name) && !seen[id.Name] {
+			seen[id.Name] = true
+			out = append(out, id.Name) // an unresolved helper result
+		}
+		return call
+	})
+	return out
+}
+
+func (c *psCtx) mentionsCount(e ast.Expr) bool {
+	for _, id := range c.valueIdents(e) {
+		if strings.HasPrefix(id, "$c") {
+			return true
+		}
+	}
+	return false
+}
+
+// canon: remaining locals -> $v, printed without white space
+func (c *psCtx) canon(e ast.Expr) string {
+	r := psRewrite(psOrient(stripParens(e)), func(id *ast.Ident) ast.Expr {
+		if c.isLocal(id.Name) {
+			return psRole("$v")
+		}
+		return id
+	}, func(s *ast.SelectorExpr) ast.Expr {
+		if id, ok := s.X.(*ast.Ident); ok && c.imports[id.Name] {
+			return s
+		}
+		return nil
+	}, func(call *ast.CallExpr) ast.Expr {
+		// the result of a function of this package, or of a method of a local object, is just another run-time value
+		if id, ok := call.Fun.(*ast.Ident); ok && c.funcs[id.Name] != nil && !isRoleIdent(id.Name) {
+			for _, a := range call.Args {
+				if c.mentionsCount(a) {
+					return call
+				}
+			}
+			return psRole("$v")
+		}
+		if se, ok := call.Fun.(*ast.SelectorExpr); ok {
+			root := se.X
+			for {
+				switch x := root.(type) {
+				case *ast.SelectorExpr:
+					root = x.X
+					continue
+				case *ast.ParenExpr:
+					root = x.X
+					continue
+				case *ast.StarExpr:
+					root = x.X
+					continue
+				}
+				break
+			}
+			if id, ok := root.(*ast.Ident); ok && id.Name == "$v" {
+				for _, a := range call.Args {
+					if c.mentionsCount(a) {
+						return call
+					}
+				}
+				return psRole("$v")
+			}
+		}
+		return call
+	})
+	return flat(c.fset, r)
+}
+
+// psOrient: comparisons are written with the literal on the right (`0 == n` -> `n == 0`)
+func psOrient(e ast.Expr) ast.Expr {
+	switch x := e.(type) {
+	case *ast.ParenExpr:
+		return &ast.ParenExpr{X: psOrient(x.X)}
+	case *ast.UnaryExpr:
+		return &ast.UnaryExpr{Op: x.Op, X: psOrient(x.X)}
+	case *ast.BinaryExpr:
+		l, r := psOrient(x.X), psOrient(x.Y)
+		switch x.Op {
+		case token.EQL, token.NEQ, token.LSS, token.GTR, token.LEQ, token.GEQ:
+			_, ll := stripParens(l).(*ast.BasicLit)
+			_, rl := stripParens(r).(*ast.BasicLit)
+			if ll && !rl {
+				return &ast.BinaryExpr{X: r, Op: flipOp(x.Op), Y: l}
+			}
+		}
+		return &ast.BinaryExpr{X: l, Op: x.Op, Y: r}
+	}
+	return e
+}
+
+func psSplit(e ast.Expr, op token.Token) []ast.Expr {
+	e = stripParens(e)
+	if b, ok := e.(*ast.BinaryExpr); ok && b.Op == op {
+		return append(psSplit(b.X, op), psSplit(b.Y, op)...)
+	}
+	return []ast.Expr{e}
+}
+
+func psParams(fn *ast.FuncDecl) []string {
+	var out []string
+	for _, f := range fn.Type.Params.List {
+		if len(f.Names) == 0 {
+			out = append(out, "_")
+		}
+		for _, n := range f.Names {
+			out = append(out, n.Name)
+		}
+	}
+	return out
+}
+
+func calleeName(call *ast.CallExpr) string {
+	switch fx := call.Fun.(type) {
+	case *ast.SelectorExpr:
+		return fx.Sel.Name
+	case *ast.Ident:
+		return fx.Name
+	}
+	return ""
+}
+
+// helperOf: the same-package declaration a call certainly refers to (nil for pkg.F of another package, for ambiguous
+// method names, and for functions already on the chain)
+func (c *psCtx) helperOf(f *psFrame, call *ast.CallExpr) *ast.FuncDecl {
+	if se, ok := call.Fun.(*ast.SelectorExpr); ok {
+		if id, ok := se.X.(*ast.Ident); ok && c.imports[id.Name] {
+			return nil
+		}
+	}
+	g := calleeOf(c.funcs, call)
+	if g == nil || g.Body == nil || f.chain[g] || f.depth <= 0 {
+		return nil
+	}
+	return g
+}
+
+// toRole: an expression of frame f in role terms — locals inlined, parameters replaced by the caller's arguments, decoded
+// counts replaced by $c.Reader, results of same-package helpers replaced by what they return (when that is one expression
+// without locals of the helper; otherwise the call stays, with its arguments in role terms).
+func (c *psCtx) toRole(f *psFrame, e ast.Expr) ast.Expr {
+	if e == nil {
+		return nil
+	}
+	in := inlineLocals(e, f.defs)
+	return psRewrite(in, func(id *ast.Ident) ast.Expr {
+		var r ast.Expr = id
+		if t, ok := f.taint[id.Name]; ok {
+			r = t
+		} else if t, ok := f.subst[id.Name]; ok {
+			r = t
+		}
+		if id.Pos().IsValid() {
+			for _, st := range f.steps[id.Name] {
+				switch {
+				case st.pos <= id.Pos() && id.Pos() < st.upto:
+					r = &ast.ParenExpr{X: &ast.BinaryExpr{X: r, Op: st.op, Y: st.lit}}
+				case st.upto <= id.Pos() && !st.exits:
+					r = &ast.CallExpr{Fun: ast.NewIdent("$stepped"), Args: []ast.Expr{r}} // stepped on some paths only
+				}
+			}
+		}
+		return r
+	}, func(s *ast.SelectorExpr) ast.Expr {
+		if id, ok := s.X.(*ast.Ident); ok && c.imports[id.Name] {
+			return s
+		}
+		if r, ok := f.taint["."+s.Sel.Name]; ok {
+			return r
+		}
+		return nil
+	}, func(call *ast.CallExpr) ast.Expr {
+		if g := c.helperOf(f, call); g != nil {
+			if rs := c.helperResults(f, g, call.Args, true); len(rs) == 1 && rs[0] != nil {
+				return rs[0]
+			}
+		}
+		return call
+	})
+}
+
+// child frame for a call of g with arguments (already in role terms)
+func (c *psCtx) childFrame(f *psFrame, g *ast.FuncDecl, roleArgs []ast.Expr, at []cond) *psFrame {
+	nf := &psFrame{fn: g, steps: psStepsOf(g), defs: singleDefs(g), subst: map[string]ast.Expr{}, taint: map[string]ast.Expr{}, depth: f.depth - 1, chain: map[*ast.FuncDecl]bool{g: true}}
+	for k := range f.chain {
+		nf.chain[k] = true
+	}
+	for i, pn := range psParams(g) {
+		if i < len(roleArgs) && pn != "_" && c.mentionsCount(roleArgs[i]) {
+			nf.subst[pn] = roleArgs[i]
+		}
+	}
+	nf.inherited = append(append([]cond{}, f.inherited...), at...)
+	c.taintOf(nf)
+	return nf
+}
+
+// helperResults: for each result position of g, the expression it returns on the success paths in role terms (nil when
+// there is not exactly one, or when it still mentions a local of g). argsInRole: the arguments are already role terms.
+func (c *psCtx) helperResults(f *psFrame, g *ast.FuncDecl, args []ast.Expr, argsInRole bool) []ast.Expr {
+	if g.Type.Results == nil {
+		return nil
+	}
+	nres := 0
+	lastIsErr := false
+	for _, r := range g.Type.Results.List {
+		k := len(r.Names)
+		if k == 0 {
+			k = 1
+		}
+		nres += k
+		id, ok := r.Type.(*ast.Ident)
+		lastIsErr = ok && id.Name == "error"
+	}
+	roleArgs := args
+	if !argsInRole {
+		roleArgs = make([]ast.Expr, len(args))
+		for i, a := range args {
+			roleArgs[i] = c.toRole(f, a)
+		}
+	}
+	nf := c.childFrame(f, g, roleArgs, nil)
+	out := make([]ast.Expr, nres)
+	seen := make([]map[string]bool, nres)
+	bad := make([]bool, nres)
+	ast.Inspect(g.Body, func(n ast.Node) bool {
+		if _, ok := n.(*ast.FuncLit); ok {
+			return false
+		}
+		ret, ok := n.(*ast.ReturnStmt)
+		if !ok {
+			return true
+		}
+		if len(ret.Results) != nres {
+			for i := range bad {
+				bad[i] = true // bare return of named results, or a forwarded multi-value call
+			}
+			return true
+		}
+		if lastIsErr {
+			if id, ok := ret.Results[nres-1].(*ast.Ident); !ok || id.Name != "nil" {
+				return true // an error path: the caller leaves
+			}
+		}
+		for i, r := range ret.Results {
+			re := c.toRole(nf, r)
+			for _, id := range c.valueIdents(re) {
+				if !isRoleIdent(id) {
+					bad[i] = true
+				}
+			}
+			s := c.canon(re)
+			if seen[i] == nil {
+				seen[i] = map[string]bool{}
+			}
+			if !seen[i][s] {
+				seen[i][s] = true
+				out[i] = re
+			}
+		}
+		return true
+	})
+	if lastIsErr {
+		bad[nres-1] = true // which error a helper returns is not a value to substitute
+	}
+	for i := range out {
+		if bad[i] || len(seen[i]) != 1 {
+			out[i] = nil
+		}
+	}
+	return out
+}
+
+// readsCount: g (helpers followed) calls a count decoder
+func (c *psCtx) readsCount(g *ast.FuncDecl) bool {
 	found := false
-	ast.Inspect(e, func(n ast.Node) bool {
-		if id, ok := n.(*ast.Ident); ok && names[id.Name] {
+	walkDeep(c.funcs, g, 2, func(n ast.Node, in *ast.FuncDecl) bool {
+		if ce, ok := n.(*ast.CallExpr); ok && reCountDecoder.MatchString(calleeName(ce)) {
 			found = true
 		}
 		return !found
@@ -80,98 +571,690 @@ func mentions(e ast.Node, names map[string]bool) bool {
 	return found
 }
 
+// Two decoded values of one function are different operands even when they were read with the same reader: a role carries
+// the name it was assigned to as an identity (`$c.NextVarUint@n`); the identity decides which guards speak about which
+// operand and is never printed.
+func lhsName(l ast.Expr) string {
+	switch x := l.(type) {
+	case *ast.Ident:
+		return x.Name
+	case *ast.SelectorExpr:
+		return "." + x.Sel.Name
+	}
+	return "?"
+}
+
+var reIdentity = regexp.MustCompile(`@[A-Za-z0-9_.?]+`)
+
+func psReident(e ast.Expr, name string) ast.Expr {
+	return psRewrite(e, func(id *ast.Ident) ast.Expr {
+		if strings.HasPrefix(id.Name, "$c.") {
+			return psRole(reIdentity.ReplaceAllString(id.Name, "") + "@" + name)
+		}
+		return id
+	}, nil, func(call *ast.CallExpr) ast.Expr {
+		if id, ok := call.Fun.(*ast.Ident); ok && strings.HasPrefix(id.Name, "$c.") {
+			return &ast.CallExpr{Fun: psRole(reIdentity.ReplaceAllString(id.Name, "") + "@" + name), Args: call.Args}
+		}
+		return call
+	})
+}
+
+// psIntResult: the i-th result of g is declared with an integer type (only such a result can be a count)
+func psIntResult(g *ast.FuncDecl, i int) bool {
+	k := 0
+	for _, r := range g.Type.Results.List {
+		n := len(r.Names)
+		if n == 0 {
+			n = 1
+		}
+		if i < k+n {
+			id, ok := r.Type.(*ast.Ident)
+			return ok && psBuiltins[id.Name] && (strings.HasPrefix(id.Name, "int") || strings.HasPrefix(id.Name, "uint") || id.Name == "byte")
+		}
+		k += n
+	}
+	return false
+}
+
+// taintOf fills f.taint: names assigned from a count decoder, or from a same-package helper that returns a decoded count
+func (c *psCtx) taintOf(f *psFrame) {
+	ast.Inspect(f.fn.Body, func(n ast.Node) bool {
+		as, ok := n.(*ast.AssignStmt)
+		if !ok || len(as.Rhs) != 1 {
+			return true
+		}
+		call, ok := as.Rhs[0].(*ast.CallExpr)
+		if !ok {
+			return true
+		}
+		set := func(l ast.Expr, r ast.Expr) {
+			switch x := l.(type) {
+			case *ast.Ident:
+				if x.Name != "_" {
+					f.taint[x.Name] = r
+				}
+			case *ast.SelectorExpr:
+				f.taint["."+x.Sel.Name] = r
+			}
+		}
+		name := calleeName(call)
+		if reCountDecoder.MatchString(name) {
+			set(as.Lhs[0], psRole("$c."+name+"@"+lhsName(as.Lhs[0])))
+			return true
+		}
+		g := c.helperOf(f, call)
+		if g == nil {
+			return true
+		}
+		roleArgs := make([]ast.Expr, len(call.Args))
+		anyCount := false
+		for i, a := range call.Args {
+			roleArgs[i] = c.toRole(f, a)
+			anyCount = anyCount || c.mentionsCount(roleArgs[i])
+		}
+		rs := c.helperResults(f, g, roleArgs, true)
+		for i, l := range as.Lhs {
+			if i >= len(rs) {
+				break
+			}
+			if i == len(as.Lhs)-1 && len(as.Lhs) > 1 {
+				if id, ok := l.(*ast.Ident); ok && (id.Name == "err" || id.Name == "e") {
+					continue
+				}
+			}
+			switch {
+			case rs[i] != nil && c.mentionsCount(rs[i]):
+				if len(as.Lhs) > 1 || as.Tok != token.DEFINE { // a single `x := g(..)` is inlined by toRole anyway
+					set(l, psReident(rs[i], lhsName(l)))
+				}
+			case rs[i] == nil && c.readsCount(g) && len(as.Lhs) > 1 && psIntResult(g, i):
+				// not understood: keep the call itself as the role, so that a use as a bound / size is still reported
+				set(l, &ast.CallExpr{Fun: ast.NewIdent(fmt.Sprintf("$c.%s#%d@%s", g.Name.Name, i, lhsName(l))), Args: roleArgs})
+			}
+		}
+		return true
+	})
+}
+
+// guardsAt: the conditions of f.fn that dominate the node [p,end), in source terms
+func psGuardsAt(fn *ast.FuncDecl, p token.Pos) []cond {
+	// the smallest statement that contains the site (a simple statement, or the if / for / switch whose header holds it)
+	var encl ast.Stmt
+	ast.Inspect(fn.Body, func(n ast.Node) bool {
+		if n == nil || n.Pos() > p || p >= n.End() {
+			return n != nil && n.Pos() <= p
+		}
+		if st, ok := n.(ast.Stmt); ok {
+			if _, blk := st.(*ast.BlockStmt); !blk {
+				encl = st
+			}
+		}
+		return true
+	})
+	if encl == nil {
+		return nil
+	}
+	var best []cond
+	found, exact := false, false
+	guardsOf(fn.Body.List, nil, func(s ast.Stmt, gs []cond) {
+		switch {
+		case s == encl || (s.Pos() <= encl.Pos() && encl.End() <= s.End()):
+			if !exact { // visited in source order, outermost first: the first hit is the statement guardsOf treats as simple
+				best, found, exact = gs, true, true
+			}
+		case !found && encl.Pos() <= s.Pos() && s.End() <= encl.End():
+			best, found = gs, true // the first simple statement inside the compound statement: same guards, plus inner ones
+		}
+	})
+	var out []cond
+	for _, g := range best {
+		if !exact && g.e.Pos().IsValid() && g.e.Pos() >= encl.Pos() {
+			continue // a condition of the compound statement itself (or inside it)
+		}
+		out = append(out, g)
+	}
+	return out
+}
+
+// roleGuards: the dominating conditions of a node of frame f in role terms (own ones converted, inherited ones appended)
+func (c *psCtx) roleGuards(f *psFrame, p, end token.Pos) []cond {
+	out := append([]cond{}, f.inherited...)
+	for _, g := range psGuardsAt(f.fn, p) {
+		if c.stale(f, g.e, p) {
+			continue
+		}
+		if !g.pos {
+			// `if err := check(n); err != nil { return }`: the site runs only when none of check's error conditions held
+			rest := []ast.Expr{}
+			for _, a := range psSplit(g.e, token.LOR) {
+				call := c.callOfErr(f, a)
+				var h *ast.FuncDecl
+				if call != nil {
+					h = c.helperOf(f, call)
+				}
+				if h == nil {
+					rest = append(rest, a)
+					continue
+				}
+				roleArgs := make([]ast.Expr, len(call.Args))
+				for i, x := range call.Args {
+					roleArgs[i] = c.toRole(f, x)
+				}
+				nf := c.childFrame(f, h, roleArgs, nil)
+				exits := psErrorExits(h)
+				if len(exits) == 0 {
+					rest = append(rest, a)
+				}
+				for _, ex := range exits {
+					out = append(out, cond{c.toRole(nf, ex), false})
+				}
+			}
+			for _, a := range rest {
+				out = append(out, cond{c.toRole(f, a), false})
+			}
+			continue
+		}
+		out = append(out, cond{c.toRole(f, g.e), g.pos})
+	}
+	return out
+}
+
+// psErrorExits: the conditions under which a helper returns a non-nil error, read off the leading chain of
+// `if c { return …, err }` statements of its body (definitions in between are skipped; the chain stops at anything else)
+func psErrorExits(fn *ast.FuncDecl) []ast.Expr {
+	var out []ast.Expr
+	for _, st := range fn.Body.List {
+		is, ok := st.(*ast.IfStmt)
+		if !ok {
+			if _, isDecl := st.(*ast.DeclStmt); isDecl {
+				continue
+			}
+			if as, isAs := st.(*ast.AssignStmt); isAs && as.Tok == token.DEFINE {
+				continue
+			}
+			break
+		}
+		if is.Else != nil || is.Init != nil || len(is.Body.List) == 0 {
+			break
+		}
+		ret, ok := is.Body.List[len(is.Body.List)-1].(*ast.ReturnStmt)
+		if !ok || len(ret.Results) == 0 {
+			break
+		}
+		if id, ok := ret.Results[len(ret.Results)-1].(*ast.Ident); ok && id.Name == "nil" {
+			break
+		}
+		out = append(out, is.Cond)
+	}
+	return out
+}
+
+// callOfErr: the call whose error result the condition `x != nil` tests, when that can be told: `f(..) != nil`,
+// `x := f(..)` (single definition), `if x = f(..); x != nil`, or `[.., ]x = f(..)` as the statement right before the if
+func (c *psCtx) callOfErr(f *psFrame, cnd ast.Expr) *ast.CallExpr {
+	b, ok := stripParens(cnd).(*ast.BinaryExpr)
+	if !ok || b.Op != token.NEQ {
+		return nil
+	}
+	if id, ok := b.Y.(*ast.Ident); !ok || id.Name != "nil" {
+		return nil
+	}
+	switch x := stripParens(b.X).(type) {
+	case *ast.CallExpr:
+		return x
+	case *ast.Ident:
+		if r, ok := stripParens(inlineLocals(x, f.defs)).(*ast.CallExpr); ok {
+			return r
+		}
+		assignsErr := func(st ast.Stmt) *ast.CallExpr {
+			as, ok := st.(*ast.AssignStmt)
+			if !ok || len(as.Rhs) != 1 {
+				return nil
+			}
+			last, ok := as.Lhs[len(as.Lhs)-1].(*ast.Ident)
+			if !ok || last.Name != x.Name {
+				return nil
+			}
+			ce, _ := as.Rhs[0].(*ast.CallExpr)
+			return ce
+		}
+		var found *ast.CallExpr
+		ast.Inspect(f.fn.Body, func(n ast.Node) bool {
+			var list []ast.Stmt
+			switch bl := n.(type) {
+			case *ast.BlockStmt:
+				list = bl.List
+			case *ast.CaseClause:
+				list = bl.Body
+			default:
+				return true
+			}
+			for i, st := range list {
+				is, ok := st.(*ast.IfStmt)
+				if !ok || !(is.Cond.Pos() <= cnd.Pos() && cnd.End() <= is.Cond.End()) {
+					continue
+				}
+				if is.Init != nil {
+					found = assignsErr(is.Init)
+				} else if i > 0 {
+					found = assignsErr(list[i-1])
+				}
+			}
+			return true
+		})
+		return found
+	}
+	return nil
+}
+
+// stale: a local the condition mentions is assigned again between the condition and the site, so the condition speaks about
+// an older value (`if err != nil { return }; err = f(); if err != nil { panic(err) }`)
+func (c *psCtx) stale(f *psFrame, g ast.Expr, site token.Pos) bool {
+	if !g.End().IsValid() {
+		return false
+	}
+	names := map[string]bool{}
+	ast.Inspect(g, func(n ast.Node) bool {
+		if id, ok := n.(*ast.Ident); ok && c.isLocal(id.Name) {
+			names[id.Name] = true
+		}
+		return true
+	})
+	st := false
+	ast.Inspect(f.fn.Body, func(n ast.Node) bool {
+		var lhs []ast.Expr
+		switch x := n.(type) {
+		case *ast.AssignStmt:
+			lhs = x.Lhs
+		case *ast.IncDecStmt:
+			lhs = []ast.Expr{x.X}
+		}
+		for _, l := range lhs {
+			if id, ok := l.(*ast.Ident); ok && names[id.Name] && n.Pos() >= g.End() && n.Pos() < site && !f.stepAt(id.Name, n.End()) {
+				st = true
+			}
+		}
+		return !st
+	})
+	return st
+}
+
+// relevant guards of a site: those that share a value identifier (a local of this function, or a role) with the operands
+func (c *psCtx) guardText(gs []cond, operands []ast.Expr) string {
+	want := map[string]bool{}
+	for _, o := range operands {
+		for _, id := range c.valueIdents(o) {
+			want[id] = true
+		}
+	}
+	seen := map[string]bool{}
+	var out []string
+	for _, g := range gs {
+		op := token.LAND
+		if !g.pos {
+			op = token.LOR
+		}
+		for _, a := range psSplit(g.e, op) {
+			rel := false
+			for _, id := range c.valueIdents(a) {
+				if want[id] {
+					rel = true
+				}
+			}
+			if !rel {
+				continue
+			}
+			s := ""
+			if n := c.normCmp(a, !g.pos); n != nil {
+				s = c.opText(n)
+			} else if s = c.opText(a); !g.pos {
+				s = "!(" + s + ")"
+			}
+			if !seen[s] {
+				seen[s] = true
+				out = append(out, s)
+			}
+		}
+	}
+	if len(out) == 0 {
+		return ""
+	}
+	sort.Strings(out)
+	return " if " + strings.Join(out, " ; ")
+}
+
+// normCmp: a comparison atom in one canonical spelling — a negation inverts the operator (`!(a<b)` = `a>=b`), `!!x` = x,
+// the side that derives from a decoded count stands on the left, a literal on the right. nil: not a comparison.
+func (c *psCtx) normCmp(a ast.Expr, negate bool) ast.Expr {
+	a = stripParens(a)
+	for {
+		u, ok := a.(*ast.UnaryExpr)
+		if !ok || u.Op != token.NOT {
+			break
+		}
+		a, negate = stripParens(u.X), !negate
+	}
+	b, ok := a.(*ast.BinaryExpr)
+	if !ok {
+		if negate {
+			return &ast.UnaryExpr{Op: token.NOT, X: a}
+		}
+		return a
+	}
+	inv := map[token.Token]token.Token{token.EQL: token.NEQ, token.NEQ: token.EQL, token.LSS: token.GEQ, token.GEQ: token.LSS, token.GTR: token.LEQ, token.LEQ: token.GTR}
+	op, known := b.Op, false
+	if _, known = inv[b.Op]; !known {
+		return nil
+	}
+	if negate {
+		op = inv[op]
+	}
+	l, r := b.X, b.Y
+	_, ll := stripParens(l).(*ast.BasicLit)
+	if (c.mentionsCount(r) && !c.mentionsCount(l)) || (ll && !c.mentionsCount(l)) {
+		l, r, op = r, l, flipOp(op)
+	}
+	return &ast.BinaryExpr{X: l, Op: op, Y: r}
+}
+
+func (c *psCtx) readersOf(es ...ast.Expr) string {
+	seen := map[string]bool{}
+	var out []string
+	for _, e := range es {
+		for _, id := range c.valueIdents(e) {
+			if r := reIdentity.ReplaceAllString(id, ""); strings.HasPrefix(r, "$c.") && !seen[r] {
+				seen[r] = true
+				out = append(out, r[3:])
+			}
+		}
+	}
+	sort.Strings(out)
+	return strings.Join(out, ",")
+}
+
+// stripReaders: `$c.NextVarUint` -> `$c` inside an operation text (the readers are listed once, after the operation)
+var reRoleReader = regexp.MustCompile(`\$c\.[A-Za-z0-9_]+(#[0-9]+)?`)
+
+func (c *psCtx) opText(e ast.Expr) string {
+	return reRoleReader.ReplaceAllStringFunc(reIdentity.ReplaceAllString(c.canon(e), ""), func(s string) string {
+		if strings.Contains(s, "#") {
+			return s // an unresolved helper result keeps its name
+		}
+		return "$c"
+	})
+}
+
+// bodyReads: the loop body (helpers followed) decodes / reads something and can leave the loop
+func (c *psCtx) bodyReads(body *ast.BlockStmt, in *ast.FuncDecl) string {
+	reads, exits := false, false
+	var visit func(n ast.Node, d int, seen map[*ast.FuncDecl]bool)
+	visit = func(root ast.Node, d int, seen map[*ast.FuncDecl]bool) {
+		ast.Inspect(root, func(n ast.Node) bool {
+			switch x := n.(type) {
+			case *ast.ReturnStmt:
+				if d == 0 {
+					exits = true
+				}
+			case *ast.BranchStmt:
+				if d == 0 && (x.Tok == token.BREAK || x.Tok == token.GOTO) {
+					exits = true
+				}
+			case *ast.CallExpr:
+				if reItemRead.MatchString(calleeName(x)) {
+					reads = true
+				}
+				if g := calleeOf(c.funcs, x); g != nil && g.Body != nil && !seen[g] && d < 2 {
+					seen[g] = true
+					visit(g.Body, d+1, seen)
+				}
+			}
+			return true
+		})
+	}
+	visit(body, 0, map[*ast.FuncDecl]bool{in: true})
+	if reads && exits {
+		return " body:reads"
+	}
+	return " body:noread"
+}
+
+func flipOp(op token.Token) token.Token {
+	switch op {
+	case token.LSS:
+		return token.GTR
+	case token.GTR:
+		return token.LSS
+	case token.LEQ:
+		return token.GEQ
+	case token.GEQ:
+		return token.LEQ
+	}
+	return op
+}
+
+// analyse records the site kinds of one frame and descends into same-package helpers that receive a decoded count
+func (c *psCtx) analyse(f *psFrame) {
+	addCount := func(op string, operands []ast.Expr, extra string, p, end token.Pos) {
+		line := fmt.Sprintf("%s: %s $c=%s%s%s", c.dir, op, c.readersOf(operands...), extra, c.guardText(c.roleGuards(f, p, end), operands))
+		c.counts[line] = true
+		c.debug(line, p)
+	}
+	ast.Inspect(f.fn.Body, func(n ast.Node) bool {
+		switch x := n.(type) {
+		case *ast.CallExpr:
+			fname := ""
+			if id, ok := x.Fun.(*ast.Ident); ok {
+				fname = id.Name
+			}
+			switch {
+			case fname == "panic" && len(x.Args) == 1:
+				if len(f.subst) > 0 {
+					return true // the standalone analysis of this function records its panics
+				}
+				arg := c.toRole(f, x.Args[0])
+				line := fmt.Sprintf("%s: panic(%s)%s", c.dir, c.opText(arg), c.guardText(c.roleGuards(f, x.Pos(), x.End()), []ast.Expr{arg}))
+				c.panics[line] = true
+				c.debug(line, x.Pos())
+			case fname == "make" && len(x.Args) >= 2:
+				var sizes []string
+				var ops []ast.Expr
+				for _, a := range x.Args[1:] {
+					r := c.toRole(f, a)
+					sizes = append(sizes, c.opText(r))
+					if c.mentionsCount(r) {
+						ops = append(ops, r)
+					}
+				}
+				if len(ops) > 0 {
+					addCount(fmt.Sprintf("make(%s,%s)", flat(c.fset, x.Args[0]), strings.Join(sizes, ",")), ops, "", x.Pos(), x.End())
+				}
+			default:
+				if g := c.helperOf(f, x); g != nil {
+					roleArgs := make([]ast.Expr, len(x.Args))
+					anyCount := false
+					for i, a := range x.Args {
+						roleArgs[i] = c.toRole(f, a)
+						anyCount = anyCount || c.mentionsCount(roleArgs[i])
+					}
+					if anyCount {
+						c.analyse(c.childFrame(f, g, roleArgs, c.roleGuards(f, x.Pos(), x.End())))
+					}
+				}
+			}
+		case *ast.ForStmt:
+			if x.Cond == nil {
+				return true
+			}
+			cnd := stripParens(c.toRole(f, x.Cond))
+			if !c.mentionsCount(cnd) {
+				return true
+			}
+			b, ok := cnd.(*ast.BinaryExpr)
+			if !ok {
+				addCount("loop "+c.opText(cnd), []ast.Expr{cnd}, c.bodyReads(x.Body, f.fn), x.Pos(), x.End())
+				return true
+			}
+			bound, other, op := b.Y, b.X, b.Op
+			if !c.mentionsCount(b.Y) {
+				bound, other, op = b.X, b.Y, flipOp(b.Op)
+			}
+			text := "loop " + op.String() + c.opText(bound)
+			if c.mentionsCount(other) {
+				text = "loop " + c.opText(cnd) // both sides derive from a count: print the whole condition
+			}
+			addCount(text, []ast.Expr{bound}, c.bodyReads(x.Body, f.fn), x.Pos(), x.End())
+		case *ast.RangeStmt:
+			r := c.toRole(f, x.X)
+			if c.mentionsCount(r) {
+				if _, isCall := stripParens(r).(*ast.CallExpr); isCall || isRoleIdent(c.canon(r)) {
+					addCount("loop <"+c.opText(r), []ast.Expr{r}, c.bodyReads(x.Body, f.fn), x.Pos(), x.End())
+				}
+			}
+		case *ast.IndexExpr:
+			if r := c.toRole(f, x.Index); c.mentionsCount(r) {
+				addCount("index ["+c.opText(r)+"]", []ast.Expr{r}, "", x.Pos(), x.End())
+			}
+		case *ast.SliceExpr:
+			lo, hi := c.toRole(f, x.Low), c.toRole(f, x.High)
+			var ops []ast.Expr
+			txt := func(e ast.Expr) string {
+				if e == nil {
+					return ""
+				}
+				if c.mentionsCount(e) {
+					ops = append(ops, e)
+				}
+				return c.opText(e)
+			}
+			s := "slice [" + txt(lo) + ":" + txt(hi) + "]"
+			if len(ops) > 0 {
+				addCount(s, ops, "", x.Pos(), x.End())
+			}
+		case *ast.BinaryExpr:
+			if x.Op == token.QUO || x.Op == token.REM {
+				if r := c.toRole(f, x.Y); c.mentionsCount(r) {
+					addCount("div "+x.Op.String()+c.opText(r), []ast.Expr{r}, "", x.Pos(), x.End())
+				}
+			}
+		}
+		return true
+	})
+}
+
+func (c *psCtx) loadNames(repo string) error {
+	ents, err := os.ReadDir(filepath.Join(repo, c.dir))
+	if err != nil {
+		return err
+	}
+	for _, e := range ents {
+		n := e.Name()
+		if e.IsDir() || !strings.HasSuffix(n, ".go") || strings.HasSuffix(n, "_test.go") {
+			continue
+		}
+		f, err := parser.ParseFile(token.NewFileSet(), filepath.Join(repo, c.dir, n), nil, 0)
+		if err != nil {
+			return err
+		}
+		for _, im := range f.Imports {
+			p := strings.Trim(im.Path.Value, `"`)
+			name := p[strings.LastIndex(p, "/")+1:]
+			if im.Name != nil {
+				name = im.Name.Name
+			}
+			c.imports[name] = true
+		}
+		for _, d := range f.Decls {
+			switch x := d.(type) {
+			case *ast.FuncDecl:
+				if x.Recv == nil {
+					c.globals[x.Name.Name] = true
+				}
+			case *ast.GenDecl:
+				for _, sp := range x.Specs {
+					switch s := sp.(type) {
+					case *ast.ValueSpec:
+						for _, nm := range s.Names {
+							c.globals[nm.Name] = true
+						}
+					case *ast.TypeSpec:
+						c.globals[s.Name.Name] = true
+					}
+				}
+			}
+		}
+	}
+	return nil
+}
+
+// PS_DEBUG=1: print where every kind was found (development aid, stderr only)
+func (c *psCtx) debug(line string, p token.Pos) {
+	if os.Getenv("PS_DEBUG") != "" {
+		fmt.Fprintf(os.Stderr, "%s\t%s\n", c.fset.Position(p), line)
+	}
+}
+
+func psLean(s string) string {
+	return `"` + strings.NewReplacer(`\`, `/`, `"`, `'`).Replace(s) + `"`
+}
+
 func genPanicSites(repo string) (string, error) {
-	files, err := panicSiteFiles(repo)
+	dirs, nfiles, err := panicSiteDirs(repo)
 	if err != nil {
 		return "", err
 	}
-	if len(files) < 100 {
-		return "", fmt.Errorf("only %d Go files found under smartcontract/, vm/neovm/, core/states/: wrong repository root?", len(files))
+	if nfiles < 100 {
+		return "", fmt.Errorf("only %d Go files found under smartcontract/, vm/neovm/, core/states/: wrong repository root?", nfiles)
 	}
-	var panics, counts []string
-	for _, rel := range files {
-		fset := token.NewFileSet()
-		f, err := parser.ParseFile(fset, filepath.Join(repo, rel), nil, 0)
+	panics, counts := map[string]bool{}, map[string]bool{}
+	for _, dir := range dirs {
+		fset, funcs, err := pkgFuncs(repo, dir)
 		if err != nil {
-			return "", fmt.Errorf("%s: %v", rel, err)
+			return "", fmt.Errorf("%s: %v", dir, err)
 		}
-		skip := false
-		for _, cg := range f.Comments {
-			_ = cg
+		c := &psCtx{dir: dir, fset: fset, funcs: funcs, imports: map[string]bool{}, globals: map[string]bool{}, panics: panics, counts: counts}
+		if err := c.loadNames(repo); err != nil {
+			return "", fmt.Errorf("%s: %v", dir, err)
 		}
-		if skip {
-			continue
-		}
-		for _, d := range f.Decls {
-			fd, ok := d.(*ast.FuncDecl)
-			if !ok || fd.Body == nil {
+		done := map[*ast.FuncDecl]bool{}
+		var decls []*ast.FuncDecl
+		for _, fd := range funcs {
+			if done[fd] {
 				continue
 			}
-			fn := funcName(fd)
-			// identifiers assigned from a count decoder in this function
-			tainted := map[string]bool{}
-			ast.Inspect(fd.Body, func(n ast.Node) bool {
-				as, ok := n.(*ast.AssignStmt)
-				if !ok || len(as.Rhs) != 1 {
-					return true
-				}
-				call, ok := as.Rhs[0].(*ast.CallExpr)
-				if !ok {
-					return true
-				}
-				name := ""
-				switch fx := call.Fun.(type) {
-				case *ast.SelectorExpr:
-					name = fx.Sel.Name
-				case *ast.Ident:
-					name = fx.Name
-				}
-				if !reCountDecoder.MatchString(name) {
-					return true
-				}
-				if id, ok := as.Lhs[0].(*ast.Ident); ok && id.Name != "_" {
-					tainted[id.Name] = true
-				} else if sel, ok := as.Lhs[0].(*ast.SelectorExpr); ok {
-					tainted[sel.Sel.Name] = true
-				}
-				return true
-			})
-			kp, kc := 0, 0
-			ast.Inspect(fd.Body, func(n ast.Node) bool {
-				switch x := n.(type) {
-				case *ast.CallExpr:
-					if id, ok := x.Fun.(*ast.Ident); ok && id.Name == "panic" && len(x.Args) == 1 {
-						panics = append(panics, leanStr(fmt.Sprintf("%s:%s#%d: panic(%s)", rel, fn, kp, exprString(fset, x.Args[0]))))
-						kp++
-					}
-					if id, ok := x.Fun.(*ast.Ident); ok && id.Name == "make" && len(x.Args) >= 2 && len(tainted) > 0 {
-						for _, a := range x.Args[1:] {
-							if mentions(a, tainted) {
-								counts = append(counts, leanStr(fmt.Sprintf("%s:%s#%d: %s", rel, fn, kc, exprString(fset, x))))
-								kc++
-								break
-							}
-						}
-					}
-				case *ast.ForStmt:
-					if x.Cond != nil && len(tainted) > 0 && mentions(x.Cond, tainted) {
-						counts = append(counts, leanStr(fmt.Sprintf("%s:%s#%d: for %s", rel, fn, kc, exprString(fset, x.Cond))))
-						kc++
-					}
-				}
-				return true
-			})
+			done[fd] = true
+			if dir == "core/store/ledgerstore" && filepath.Base(fset.Position(fd.Pos()).Filename) != "tx_handler.go" {
+				continue
+			}
+			decls = append(decls, fd)
+		}
+		sort.Slice(decls, func(i, j int) bool { return decls[i].Pos() < decls[j].Pos() })
+		for _, fd := range decls {
+			f := &psFrame{fn: fd, steps: psStepsOf(fd), defs: singleDefs(fd), subst: map[string]ast.Expr{}, taint: map[string]ast.Expr{}, depth: 3, chain: map[*ast.FuncDecl]bool{fd: true}}
+			c.taintOf(f)
+			c.analyse(f)
 		}
 	}
 	if len(panics) == 0 {
 		return "", fmt.Errorf("no panic( site found: extraction broken")
 	}
+	if len(counts) == 0 {
+		return "", fmt.Errorf("no count-bounded loop found: extraction broken")
+	}
+	list := func(m map[string]bool) string {
+		var xs []string
+		for k := range m {
+			xs = append(xs, psLean(k))
+		}
+		sort.Strings(xs)
+		return "[\n  " + strings.Join(xs, ",\n  ") + "]"
+	}
 	var sb strings.Builder
 	sb.WriteString("namespace OntVerif.Gen.PanicSites\n\n")
-	fmt.Fprintf(&sb, "/-- every explicit `panic(` call in smartcontract/, vm/neovm/, core/states/, core/store/ledgerstore/tx_handler.go (%d files scanned) -/\n", len(files))
-	sb.WriteString("def panicSites : List String := [\n  " + strings.Join(panics, ",\n  ") + "]\n\n")
-	sb.WriteString("/-- every `make` sized by, and every `for` bounded by, a variable assigned from a count decoder (Next/Read/Decode…Uint/Int/Byte) in the same function -/\n")
-	sb.WriteString("def countSites : List String := [\n  " + strings.Join(counts, ",\n  ") + "]\n\n")
+	fmt.Fprintf(&sb, "/-- the KINDS of explicit `panic(` calls in smartcontract/, vm/neovm/, core/states/, core/store/ledgerstore/tx_handler.go\n(%d packages scanned): package, argument by role, dominating guards of the argument — a set, one entry however many copies -/\n", len(dirs))
+	sb.WriteString("def panicKinds : List String := " + list(panics) + "\n\n")
+	sb.WriteString("/-- the KINDS of loops / makes / index / slice / division operations whose bound, size or operand derives from a count decoded\nfrom the input (Next/Read/Decode…Uint/Int/Byte), helpers followed in both directions: package, operation by role, readers,\nwhether the loop body reads and can leave, dominating guards of the count — a set -/\n")
+	sb.WriteString("def countKinds : List String := " + list(counts) + "\n\n")
 	sb.WriteString("end OntVerif.Gen.PanicSites\n")
 	return sb.String(), nil
 }
